@@ -108,6 +108,7 @@ impl Runner {
             "rbsp" => self.rbsp(&toks[1..]),
             "decodenal" => self.decodenal(toks.get(1).copied().unwrap_or("-")),
             "refnal" => self.refnal(&toks[1..]),
+            "refnalhuge" => self.refnalhuge(&toks[1..]),
             "acc" => self.acc(&toks[1..]),
             "sei" => self.sei(toks[1], toks[2] == "1"),
             "avcc" => self.avcc(&unhex(toks.get(1).copied().unwrap_or(""))),
@@ -202,6 +203,37 @@ impl Runner {
             }
         }
         out.join(" ")
+    }
+
+    /// refnalhuge <n> <log2> <complete> <extra> <mode>: a NAL of n chunks of 2^log2 bytes (all borrowing one buffer) plus a last
+    /// chunk of `extra` bytes; drained by fill_buf/consume (mode f), by read() into a 64 KiB buffer (mode r) or alternating (mode m);
+    /// every delivered byte is compared with the chunk pattern; output: total, how the data ended, two further calls
+    fn refnalhuge(&mut self, t: &[&str]) -> String {
+        let n: usize = t[0].parse().unwrap(); let lg: u32 = t[1].parse().unwrap(); let complete = t[2] == "1";
+        let extra: usize = t[3].parse().unwrap(); let mode = t.get(4).copied().unwrap_or("f");
+        if n == 0 || lg > 24 || n > 70000 { return "bad".into(); }
+        let size = 1usize << lg;
+        let buf: Vec<u8> = (0..size).map(|i| (i % 251) as u8).collect();
+        let last: Vec<u8> = (0..extra).map(|i| (i % 251) as u8).collect();
+        let mut tail: Vec<&[u8]> = vec![&buf[..]; n - 1]; if extra > 0 { tail.push(&last[..]); }
+        let nal = RefNal::new(&buf[..], &tail[..], complete);
+        let mut rd = nal.reader();
+        let mut total: u64 = 0; let mut ok = true; let mut scratch = vec![0u8; 65536]; let mut turn = 0u64;
+        let expect = |pos: u64| -> u8 { let whole = (n as u64) * (size as u64); if pos < whole { ((pos % size as u64) % 251) as u8 } else { ((pos - whole) % 251) as u8 } };
+        let end;
+        loop {
+            turn += 1;
+            let use_read = mode == "r" || (mode == "m" && turn % 3 == 0);
+            if use_read {
+                match rd.read(&mut scratch) { Ok(0) => { end = "eof".to_string(); break; } Ok(k) => { if scratch[0] != expect(total) || scratch[k - 1] != expect(total + k as u64 - 1) { ok = false; } total += k as u64; } Err(e) => { end = kind(&e); break; } }
+            } else {
+                match rd.fill_buf() { Ok(b) if b.is_empty() => { end = "eof".to_string(); break; } Ok(b) => { let k = b.len(); if b[0] != expect(total) || b[k - 1] != expect(total + k as u64 - 1) || (k == size && total % size as u64 == 0 && total < (n as u64) * (size as u64) && b != &buf[..]) { ok = false; } total += k as u64; rd.consume(k); } Err(e) => { end = kind(&e); break; } }
+            }
+            if total > (1u64 << 40) { end = "runaway".to_string(); break; }
+        }
+        let again = |rd: &mut h264_reader::nal::RefNalReader<'_>| -> String { match rd.fill_buf() { Ok(b) if b.is_empty() => "eof".into(), Ok(b) => format!("data{}", b.len()), Err(e) => kind(&e) } };
+        let a1 = again(&mut rd); let mut one = [0u8; 1]; let a2 = match rd.read(&mut one) { Ok(0) => "eof".to_string(), Ok(k) => format!("data{}", k), Err(e) => kind(&e) };
+        format!("total={} bytes={} end={} again={},{}", total, if ok { "ok" } else { "WRONG" }, end, a1, a2)
     }
 
     /// acc steps `<slice>,<slice>;<end>;<answer B|I>`; output per step: `-` (no invocation) or `<head>|<tail chunks>|<complete>`
